@@ -105,6 +105,20 @@ def targets(tree, state, path, out):
             targets(arm['t'], state['v'], path + [['f', state['u']]], out)
 
 
+def sizer_cap(t, m):
+    """what the sizer of array member `m` can count (its type's maximum minus the shift), when that is small"""
+    if 'sizer' not in m:
+        return None
+    sm = next((x for x in t['ms'] if x['n'] == m['sizer']), None)
+    if sm is None or sm['t'].get('k') != 'prim':
+        return None
+    hi = V.INT_RANGE.get(sm['t']['p'], (0, 0))[1]
+    cap = hi - m.get('shift', 0)
+    if m['mk'] == 'limited':
+        cap = min(cap, m['size'])
+    return cap if cap <= 300 else None
+
+
 def gen_op(rng, tree, state):
     tg = []
     targets(tree, state, [], tg)
@@ -134,8 +148,11 @@ def gen_op(rng, tree, state):
         if comp:
             return {'op': 'set', 'path': path, 'i': i, 'a': rng.choice([True, True, None, {'int': 1}, 'other', {'str': 'x'}])}
         return {'op': 'set', 'path': path, 'i': i, 'a': None if rng.random() < 0.25 else scalar_arg(rng, mt)}
+    cap = sizer_cap(t, m)
     if mt['k'] == 'byte':
         n = rng.choice([0, 1, 2, 3, 4, 5, 6, 300])
+        if cap is not None and rng.random() < 0.3:
+            n = max(0, cap + rng.choice([-1, 0, 1]))
         a = {'bytes': ''.join('%02x' % rng.randrange(256) for _ in range(n))} if rng.random() < 0.85 else rng.choice([{'str': 'ab'}, {'int': 1}, None, {'list': []}])
         return {'op': 'set', 'path': path, 'i': i, 'a': a}
     # arrays
@@ -166,6 +183,10 @@ def gen_op(rng, tree, state):
         lo, hi = rng.choice([None, 0, 1]), rng.choice([None, 1, 2, -1])
         return {'op': 'setSlice', 'path': path, 'i': i, 'lo': lo, 'hi': hi, 'step': rng.choice([None, None, None, 1, 2]),
                 'a': collection_arg(rng, mt, n=rng.choice([None, ln]))}
+    if cap is not None and rng.random() < 0.2:
+        # grow to the edge of what the sizer can count
+        n = max(0, cap - ln + rng.choice([-1, -1, 0, 1]))
+        return {'op': 'extend', 'path': path, 'i': i, 'a': collection_arg(rng, mt, n=n)}
     r = rng.random()
     if r < 0.22:
         return {'op': 'append', 'path': path, 'i': i, 'a': scalar_arg(rng, mt)}
@@ -282,6 +303,49 @@ def classify_c10(case, detail):
     return None
 
 
+def shift_declarations(chk, root):
+    """descriptor sets with shifted counters (hand-written Python only): a class whose default message could not be
+    encoded, or whose arrays could reach a length the sizer cannot count, must be refused when it is created"""
+    import os
+    from harness.gen import schema as S
+    M = S.Member
+    decls = [
+        ('u8 sizer, shift 255', [M('n', 'u8'), M('x', 'u8', 'dynext', sizer='n', shift=255)]),
+        ('u8 sizer, shift 300', [M('n', 'u8'), M('x', 'u8', 'dynext', sizer='n', shift=300)]),
+        ('i8 sizer, shift 127', [M('n', 'i8'), M('x', 'u16', 'dynext', sizer='n', shift=127)]),
+        ('i8 sizer, shift 126', [M('n', 'i8'), M('x', 'u16', 'dynext', sizer='n', shift=126)]),
+        ('u8 sizer, bytes, shift 255', [M('n', 'u8'), M('x', 'byte', 'dynext', sizer='n', shift=255)]),
+        ('shared sizer, different shifts', [M('n', 'u8'), M('x', 'u8', 'dynext', sizer='n', shift=1), M('y', 'u8', 'dynext', sizer='n', shift=2)]),
+        ('shared sizer, same shift', [M('n', 'u8'), M('x', 'u8', 'dynext', sizer='n', shift=2), M('y', 'u16', 'dynext', sizer='n', shift=2)]),
+        ('u16 sizer, shift 65535', [M('n', 'u16'), M('x', 'u8', 'dynext', sizer='n', shift=65535)]),
+    ]
+    reqs, rows = [], []
+    for i, (note, members) in enumerate(decls):
+        sc = S.Schema()
+        sc.decls.append(S.Struct('D', members))
+        casej = {'declaration': note, 'schema': S.to_prophy(sc) + '// shifts: ' + ', '.join('%s=%d' % (m.name, m.shift) for m in members if m.shift)}
+        chk.count(('decl', note), True)
+        chk.bump('shift-declaration')
+        try:
+            _, mod = py_impl.compile_prophy(S.to_prophy(sc), os.path.join(root, 'd%d' % i), 'd', patch=lambda src, sc=sc: S.apply_shifts(sc, src))
+            created = True
+        except Exception as ex:  # noqa
+            created = False
+            if py_impl.exc_class(ex) != 'ProphyError':
+                chk.property_violation(casej, {'what': 'class creation failed outside ProphyError: %s' % py_impl.exc_class(ex)})
+        if created:
+            try:
+                mod.D().encode('<')
+            except Exception as ex:  # noqa
+                chk.property_violation(casej, {'what': 'the default message of an accepted class does not encode: %s' % py_impl.exc_class(ex)})
+        rows.append((casej, created))
+        reqs.append({'op': 'accepts', 't': S.tree(sc, 'D')})
+    for (casej, created), a in zip(rows, client.batch(reqs)):
+        chk.corr_compared += 1
+        if a['pyrt'] != created:
+            chk.correspondence_mismatch('Accept.pyRt = the runtime creates the class', casej, created, a)
+
+
 def run_c10(tier):
     chk = core.Check('C10', tier)
     chk.rule = ('schemas without floating-point fields; per message type several histories of public API operations generated against the '
@@ -290,8 +354,9 @@ def run_c10(tier):
                 'depth; valid, out-of-range and wrongly typed arguments, iterators); a case = one operation in its history; after every '
                 'operation: exception class, all attribute reads, str(), encode(); non-trivial = operation that changed the state or was rejected.')
     chk.lean = core.lean_obligations('C10', thorough=(tier == 'thorough'))
-    corpus = Corpus(chk, chk.scale(40, 400), dict(n_decls=8, floats=False))
+    corpus = Corpus(chk, chk.scale(40, 400), dict(n_decls=8, floats=False, shifts=True))
     try:
+        shift_declarations(chk, corpus.workdir)
         reqs = corpus.deft_requests()
         nd = len(reqs)
         rows = []
